@@ -22,6 +22,8 @@
 (* with the predicted outcome; the plans are replayed with the real xz.       *)
 EXTENDS Integers, Sequences, FiniteSets, TLC, Json, IOUtils
 
+CONSTANT Unlimited
+
 \* Tables: sequence of records, one per preset entry:
 \*   [preset, mib (amount units per MiB), origDict, st0 (raw encoder memusage with origDict),
 \*    st (sequence: st[k] = raw encoder memusage with dict = k MiB, k = 1..origDict>>20),
@@ -82,8 +84,26 @@ OutputPreserved(c) ==      \* --no-adjust never changes what is written: mode an
     (c.noAdjust /\ o.ok) => (o.dictMiB = -1 /\ (o.mode = "mt") = (c.threads > 1 \/ c.mtOne))
 
 -----------------------------------------------------------------------------
+(* Which of xz's two limits applies (hardware.c: hardware_memlimit_get): compression is governed by            *)
+(* --memlimit-compress, decompression, testing (-t) and listing (-l) by --memlimit-decompress; -M / --memlimit  *)
+(* sets both; no option = no limit.  A decoding mode fails with "Memory usage limit reached" exactly when the   *)
+(* memory the file needs (filters of a Block; for -l the memory of the Indexes) exceeds the applicable limit.   *)
+Modes == {"decompress", "test", "list"}
+Hows == {"none", "both", "compress", "decompress"}
+EffLimit(mode, how, lim) ==
+    CASE how = "none" -> Unlimited
+      [] how = "both" -> lim
+      [] how = "compress" -> IF mode = "compress" THEN lim ELSE Unlimited
+      [] how = "decompress" -> IF mode = "compress" THEN Unlimited ELSE lim
+\* Data.need[mode] = memory needed by the test file used for that mode
+ModeOutcome(c) == [ok |-> Data.need[c.mode] <= EffLimit(c.mode, c.how, c.limit)]
+ModeConfigs == {c \in [mode : Modes, how : Hows, limit : {1, Unlimited} \cup UNION {{Data.need[m] - 1, Data.need[m]} : m \in Modes}] :
+                   /\ c.how = "none" => c.limit = Unlimited
+                   /\ c.limit \in {1, Unlimited, Data.need[c.mode] - 1, Data.need[c.mode]}}
+
+-----------------------------------------------------------------------------
 (* plan generation / model checking over all configurations                  *)
-CONSTANTS Unlimited, ThreadOpts
+CONSTANTS ThreadOpts
 VARIABLE cfg
 
 LimitsFor(e) ==
@@ -98,10 +118,14 @@ Valid(c) == /\ c.mtOne => c.threads = 0
             /\ c.raw => (c.threads = 0 /\ ~c.mtOne)
             /\ c.threads <= Len(Tables[c.e].mt)
 
-GInit == cfg \in {c \in Configs : Valid(c) /\ Tables[c.e].unit = 1} \cup {Soft[k] : k \in 1..Len(Soft)}
+IsModeCfg(c) == "mode" \in DOMAIN c
+GInit == \/ cfg \in {c \in Configs : Valid(c) /\ Tables[c.e].unit = 1} \cup {Soft[k] : k \in 1..Len(Soft)}
+         \/ cfg \in ModeConfigs
 GNext == UNCHANGED cfg
 GSpec == GInit /\ [][GNext]_cfg
 
-Contract == WithinLimit(cfg) /\ RefusalJustified(cfg) /\ OutputPreserved(cfg)
-Emit == PrintT(<<"PLAN", ToJson([c |-> cfg, o |-> Adjust(cfg)])>>)
+Contract == IF IsModeCfg(cfg)
+            THEN ModeOutcome(cfg).ok <=> (cfg.how \in {"none", "compress"} \/ Data.need[cfg.mode] <= cfg.limit)
+            ELSE WithinLimit(cfg) /\ RefusalJustified(cfg) /\ OutputPreserved(cfg)
+Emit == PrintT(<<"PLAN", ToJson([c |-> cfg, o |-> IF IsModeCfg(cfg) THEN ModeOutcome(cfg) ELSE Adjust(cfg)])>>)
 =============================================================================
